@@ -226,7 +226,7 @@ func ruleC08(c *Ctx, r *Report) {
 	// path from the successful wrapper call to the end of the command
 	r.Floor("C08-R5", 2, "writer arguments at the CLI call sites (3 today)")
 	for _, f := range c.SortedFuncs() {
-		if isWrapperFn[f] || !reach[f] {
+		if !isWrapperFn[f] && !reach[f] {
 			continue
 		}
 		for _, call := range callsIn(f, func(k string, _ *ssa.Call) bool {
@@ -248,6 +248,11 @@ func ruleC08(c *Ctx, r *Report) {
 				}
 				w := peel(call.Call.Args[ai])
 				construct := fmt.Sprintf("%s:writer-of(%s)", f.Name(), shortKey(calleeKey(&call.Call)))
+				if _, isParam := w.(*ssa.Parameter); isParam && isWrapperFn[f] {
+					// a file-level wrapper handing its own writer on: judged at the wrapper's callers
+					r.Trivial("C08-R5", construct, c.InstrPos(call), "the wrapper passes its own writer parameter on")
+					continue
+				}
 				tn := w.Type().String()
 				if tn == "*os.File" {
 					r.OK("C08-R5", construct, c.InstrPos(call), "records are written straight to an *os.File: every write error surfaces at the write")
